@@ -9,36 +9,50 @@ from common import *
 import itertools
 
 RULE = ("db: every order 1..11 (the property's whole range, both tiers) plus order 0 (panic, not judged). "
-        "bc: exhaustive small domains (order 2: every pair of 2-letter bans x lengths 2..6; order 3: every single ban of "
-        "length 2..3 x lengths 3..8; thorough adds order 2 triples, order 3 pairs, order 4 singles), then random calls with "
-        "orders 2..8, lengths n..60, 0..5 bans of length 2..8, 0..3 filters; half of the random calls are adversarial: each "
-        "further ban (or its reverse complement) is cut from the letters that shifting past the previous bans brought into the "
-        "window, so that avoiding one ban re-introduces another. Judged on length >= n >= 1 with bans over the IUPAC codes. "
-        "non-trivial = a db case of order >= 1, or a bc case in which at least one window was shifted or the call has >= 2 barcodes; "
-        "class bc/shift-readmit = the code before the fix (checks one after another) would have answered differently. "
-        "Out-of-domain probes (corr only): length < n (panic), empty ban, order 0, lower-case bans.")
-EXHAUSTIVE = {"quick": True, "thorough": True}
-TRUSTED_BASE = ["Lean.ofReduceBool / Lean.trustCompiler for orders 9..11 only (Props/C17Native.lean, native_decide); orders 1..8 are kernel-evaluated",
-                "filters are modelled as pure functions Str -> Bool; on the protocol they come from a five-member named family implemented twice (Go harness, Lean model)",
+        "bc / hist: judged exactly on the property's quantifier - orders 2..8, lengths n..60, 0..5 bans of length 2..8 over "
+        "A,C,G,T upper case, 0..3 filters from the named family (no extension; anything else is compared with the model but "
+        "not judged: order 1, lengths > 60, empty / one-letter / lower-case / IUPAC bans, length < n, order 0). "
+        "Generated: history cases first (orders alternated within one process, e.g. 3,2,3; the harness calls the barcode "
+        "function BEFORE it fetches the sequence); exhaustive sub-domains (order 2: every pair of 2-letter bans x lengths 2..6; "
+        "order 3: every single ban of length 2..3 x lengths 3..8; thorough adds order 2 triples, order 3 pairs, order 4 singles); "
+        "fixed short-length cases at orders 6, 7, 8 (lengths n..23, i.e. strides 1..17 with up to 65536 slots), plain, adversarial "
+        "and with filters; calls with five bans of which only the last occurs; then random calls, orders 2..8, lengths n..60, "
+        "0..5 bans, 0..3 filters; half of the random calls are adversarial: each further ban (or its reverse complement) is cut "
+        "from the letters that shifting past the previous bans brought into the window, so that avoiding one ban re-introduces "
+        "another. non-trivial = a db case of order >= 1, or a judged bc/hist case that is not a ban-less call with <= 1 barcode; "
+        "class suffixes: shift-readmit = the code before the fix (checks one after another) would have answered differently; "
+        "order7-8-short = order 7 or 8 with stride <= 17. Only the db part is exhaustive over the property's range.")
+EXHAUSTIVE = {"quick": False, "thorough": False}
+TRUSTED_BASE = ["orders 9..11 only (Props/C17Native.lean): each use of native_decide adds its own axiom "
+                "`<theorem>._native.native_decide.ax_*` (this Lean version no longer routes through Lean.ofReduceBool), i.e. the Lean "
+                "compiler and interpreter are trusted for those three evaluations; the check accepts such an axiom only in that module "
+                "and only when it is named after a theorem of that module; orders 1..8 are kernel-evaluated",
+                "filters are modelled as pure functions Str -> Bool; on the protocol they come from a five-member named family implemented twice (Go harness, Lean model); "
+                "the Go loop calls every filter on every window even after a ban has rejected it - what a stateful filter would observe is outside the model",
                 "Go int arithmetic modelled on Nat/Int without overflow; strings are ASCII",
-                "transform.ReverseComplement as modelled for C11 (table regenerated from the code)"]
+                "transform.ReverseComplement as modelled for C11 (table regenerated from the code); barcodes_ban_free speaks of that table-driven function, "
+                "the judge of the independent code-set reverse complement (Props/C11 rc_spec connects the two on IUPAC strings)"]
 ASSUMPTIONS = ["filter functions are pure and total", "inputs are ASCII", "length and order are non-negative"]
 PARTIAL = ["'the generated De Bruijn sequence of order n ... contains every n-letter word exactly once' is proved for n = 1..11 "
-           "(the property's quantifier: kernel evaluation for 1..8, native_decide for 9..11); the statement for ALL n "
+           "(the property's quantifier: kernel evaluation for 1..8, native_decide with its per-use axioms for 9..11); the statement for ALL n "
            "(the Fredricksen-Kessler-Maiorana theorem) is written in Props/C17.lean as a comment and NOT claimed"]
 TECHNIQUE = ("Lean 4: a checker for the de Bruijn property proved sound for every order (pigeonhole on 4^n distinct windows), run by the "
              "kernel on the model of the Lyndon-word construction (orders 1..8) and as compiled code (9..11); loop invariants of the "
              "barcode loops proved for every order, length, ban list and arbitrary filter functions; differential correspondence, with "
              "the same verified checker and the four laws evaluated on the real output")
 LEVEL_TEXT = ("windowsDistinct_sound / checkWith_sound: the checker is sound for every n and every string. db_ok_1..8 (decide +kernel) and "
-              "db_ok_9..11 (native_decide, separate module): the model of NucleobaseDeBruijnSequence passes it on the property's whole range, "
+              "db_ok_9..11 (native_decide, separate module, per-use axioms): the model of NucleobaseDeBruijnSequence passes it on the property's whole range, "
               "and on every run the real function's output is compared with the model's for every order 1..11 and fed to the same checker. "
               "barcodes_terminate, barcodes_substrings, barcodes_len, barcodes_no_shared_nmer, barcodes_unique, barcodes_ban_free, "
               "barcodes_filters hold for every order, every length >= order, every ban list (also empty bans), arbitrary filters, and any "
               "string passing the checker; createBarcodes_laws_le8 / _9_11 instantiate them for the function itself. The loop model is tied "
-              "to the code by correspondence (exhaustive small ban sets, random and adversarial ban sets, out-of-domain panics).")
-LEVEL_NOTE = ("Trusted: Lean kernel (plus the Lean compiler for orders 9..11); harness and generators; purity of filters; "
-              "ASCII strings; no integer overflow.")
+              "to the code by correspondence (exhaustive small ban sets, random and adversarial ban sets, every stride at orders 6..8, "
+              "histories of calls with alternating orders, out-of-domain panics); the driver evaluates the model through an executable "
+              "twin proved equal to it (barcodesOnFast_eq).")
+LEVEL_NOTE = ("Trusted: Lean kernel (plus, for orders 9..11, the Lean compiler through the per-use axioms "
+              "`<theorem>._native.native_decide.ax_*` of Props/C17Native.lean); harness and generators; purity of filters; "
+              "ASCII strings; no integer overflow. Empty, one-letter, lower-case and IUPAC bans, order 1 and lengths > 60 are "
+              "compared with the model but not claimed.")
 HARNESS_BIN = "run-primers"
 EXTRACT_BINS = ["extract-seq"]
 PROOF_MODULES = ["PolyVerif.Props.C17", "PolyVerif.Props.C17Big"]
@@ -128,14 +142,52 @@ def adversarial_bans(r, db, length, n, count):
 def cases(seed, tier):
     r = rng(seed, "C17")
     thorough = tier == "thorough"
-    # ---- the sequence itself: the property's whole range
-    for n in range(0, 12):
-        yield ["db", str(n)]
     # ---- pinned by the repository's examples
     yield bc(20, 4)
     yield bc(20, 4, ["CTCTCGGTCGCTCC"])
     yield bc(20, 4, ["GGCCGCGCCCC"])
     yield bc(20, 4, [rc("GGCCGCGCCCC")])
+    # ---- histories: orders alternated within ONE process (a memoised sequence read under the wrong order would show)
+    def hist(calls):
+        out = ["hist", str(len(calls))]
+        for c in calls:
+            out += [str(len(c) - 1)] + c[1:]
+        return out
+    yield hist([bc(5, 3), bc(4, 2), bc(5, 3)])
+    yield hist([bc(3, 2, ["CC"]), bc(6, 3, ["AT"], ["homo:3"]), bc(3, 2, ["CC"]), bc(6, 3, ["AT"], ["homo:3"])])
+    yield hist([bc(8, 4), bc(8, 3), bc(8, 5), bc(8, 4), bc(8, 3), bc(8, 5)])
+    for _ in range(20 if thorough else 4):
+        orders = [r.randint(2, 6) for _ in range(r.randint(3, 6))]
+        orders += orders[:2]                                   # come back to orders already used
+        calls = []
+        for n in orders:
+            length = r.randint(n, min(60, n + 12))
+            bans = adversarial_bans(r, debruijn(n), length, n, r.choice([0, 1, 2])) if length + 1 < len(debruijn(n)) else []
+            calls.append(bc(length, n, bans, [rand_filter(r, length)] if r.random() < 0.3 else []))
+        yield hist(calls)
+    # ---- orders 6, 7, 8 with short lengths (strides 1..17: thousands of slots, large positions)
+    for n in (6, 7, 8):
+        db = debruijn(n)
+        yield bc(n, n)                                          # stride 1: 4^n - n + 1 ... slots
+        yield bc(n + 1, n, adversarial_bans(r, db, n + 1, n, 3))
+        yield bc(23, n, adversarial_bans(r, db, 23, n, 4), [rand_filter(r, 23) for _ in range(3)])
+        lens = range(n, 24) if thorough else [r.randint(n, 23) for _ in range(2)]
+        for length in lens:
+            yield bc(length, n, adversarial_bans(r, db, length, n, r.randint(1, 5)),
+                     [rand_filter(r, length) for _ in range(r.choice([0, 0, 1, 2]))])
+            if thorough:
+                yield bc(length, n)
+    # ---- five bans of which only the last one occurs anywhere (a limit on the number of bans honoured would show)
+    for n in ((3, 4, 5, 6) if thorough else (3, 5)):
+        db = debruijn(n)
+        length = r.randint(n + 1, 20)
+        absent = []
+        while len(absent) < 4:
+            w = randword(r, "ATGC", 8)
+            if w not in db and rc(w) not in db:
+                absent.append(w)
+        at = r.randrange(0, min(len(db) - 3, 40))
+        yield bc(length, n, absent + [db[at:at + r.randint(2, 3)]])
     # ---- exhaustive small domains
     two = ["".join(t) for t in itertools.product("ATGC", repeat=2)]
     three = ["".join(t) for t in itertools.product("ATGC", repeat=3)]
@@ -171,14 +223,12 @@ def cases(seed, tier):
     for i in range(N):
         n = r.choice([2, 2, 3, 3, 3, 4, 4, 4, 5, 5, 5, 6, 6, 7, 8] if thorough or i % 3 else [2, 3, 4, 5, 6])
         db = debruijn(n)
-        if n >= 7:
-            length = r.randint(max(n, 24), 60)     # keeps the number of barcodes (and the model's list walks) moderate
-        elif n == 6 and not thorough:
-            length = r.randint(n + 3, 60)          # stride 1 at order 6 means 4096 barcodes: thorough tier only
+        if n >= 7 and not thorough and r.random() < 0.8:
+            length = r.randint(24, 60)             # replies at orders 7-8 with small strides are 0.1-0.6 MB each: mostly fixed cases above
         else:
             length = r.choice([n, n, n + 1, n + 2]) if r.random() < 0.25 else r.randint(n, 60)
-        if length + 1 >= len(db):
-            length = r.randint(n, max(n, len(db) - 2))
+        if length + 1 >= len(db) and r.random() < 0.7:
+            length = r.randint(n, max(n, len(db) - 2))   # (otherwise: no room for a single barcode, the call returns nothing)
         nb = r.choice([0, 1, 1, 2, 2, 3, 3, 4, 5])
         if i % 2 == 0:
             bans = adversarial_bans(r, db, length, n, nb)
@@ -198,7 +248,7 @@ def cases(seed, tier):
             filters = [f for f in filters if not f.startswith("gc:")] if r.random() < 0.5 else filters
         yield bc(length, n, bans, filters)
     # ---- edges of the domain
-    for n in range(1, 7 if thorough else 6):
+    for n in range(1, 7):
         yield bc(n, n)                      # stride 1
         yield bc(n, n, ["AT"])
         yield bc(n + 1, n, ["GC", "TT"], ["homo:3"])
@@ -226,3 +276,7 @@ def cases(seed, tier):
         yield bc(n + 3, n, ["A-T"])
     yield bc(5, 0)
     yield bc(0, 0)
+    # ---- the sequence itself: the property's whole range (last, so that no barcode call above runs in a
+    # process in which the harness has already asked for every order's sequence)
+    for n in range(0, 12):
+        yield ["db", str(n)]
